@@ -19,7 +19,9 @@ from jax2onnx.plugins.plugin_system import PrimitiveLeafPlugin, register_primiti
 from jax2onnx.plugins._post_check_onnx_graph import expect_graph
 from jax2onnx.plugins._patching import AssignSpec, MonkeyPatchSpec
 from jax2onnx.plugins.jax.nn._builder_utils import (
+    lower_scaled_exp_linear_in_double,
     lower_unary_elementwise,
+    needs_double_parameters,
 )
 
 
@@ -112,6 +114,16 @@ class EluPlugin(PrimitiveLeafPlugin):
     # ---------- lowering (IR) ----------
     def lower(self, ctx: LoweringContextProtocol, eqn: JaxprEqn) -> None:
         alpha = float(eqn.params.get("alpha", 1.0))
+        if needs_double_parameters(ctx, eqn, alpha):
+            lower_scaled_exp_linear_in_double(
+                ctx,
+                eqn,
+                kind="elu",
+                alpha=alpha,
+                input_hint="elu_in",
+                output_hint="elu_out",
+            )
+            return
         attrs: dict[str, float] = {}
         if not np.isclose(alpha, 1.0):
             attrs["alpha"] = float(alpha)
